@@ -1100,7 +1100,9 @@ impl Net {
 				self.settling = true;
 				for p in self.persisters.iter() { *p.quiet.lock().unwrap() = true; }
 				let rounds = op["blocks"].as_u64().unwrap_or(260);
-				for _ in 0..rounds {
+				for round in 0..rounds {
+					// "should be called occasionally (once every handful of blocks or on startup)"
+					if round % 40 == 39 || round + 2 == rounds { for i in 0..n { self.nodes[i].chain_monitor.chain_monitor.archive_fully_resolved_channel_monitors(); } self.drain(); }
 					self.mine_block();
 					for i in 0..n {
 						let pend = self.persisters[i].pending.lock().unwrap().clone();
